@@ -593,6 +593,84 @@ func c12cpuset(c *Ctx) {
 				}
 			}
 		}
+		// iterator form: "for _, p := range it" where it is slices.All(paths) or slices.Backward(paths), chosen by the flag
+		iterDir := func(v ssa.Value) string {
+			call, ok := v.(*ssa.Call)
+			if !ok || len(call.Call.Args) != 1 || call.Call.Args[0] != ssa.Value(paths) {
+				return ""
+			}
+			callee := call.Call.StaticCallee()
+			if callee == nil {
+				return ""
+			}
+			if o := callee.Origin(); o != nil {
+				callee = o
+			}
+			if callee.Object() == nil || callee.Object().Pkg() == nil || callee.Object().Pkg().Path() != "slices" {
+				return ""
+			}
+			switch callee.Name() {
+			case "All", "Values":
+				return "up"
+			case "Backward":
+				return "down"
+			}
+			return ""
+		}
+		for _, cl := range an.Calls(fn, false) {
+			if cl.Common().IsInvoke() || cl.Common().StaticCallee() != nil || len(cl.Common().Args) != 1 {
+				continue
+			}
+			if _, isYield := cl.Common().Args[0].(*ssa.MakeClosure); !isYield {
+				continue
+			}
+			type alt struct {
+				src    ssa.Value
+				guards []an.Guard
+			}
+			alts := []alt{{cl.Common().Value, an.Guards(cl)}}
+			if phi, isPhi := cl.Common().Value.(*ssa.Phi); isPhi {
+				alts = nil
+				for k, e := range phi.Edges {
+					pred := phi.Block().Preds[k]
+					gs := append(an.Guards(cl), an.BlockGuards(pred)...)
+					if pi, ok := pred.Instrs[len(pred.Instrs)-1].(*ssa.If); ok && len(pred.Succs) == 2 && pred.Succs[0] != pred.Succs[1] {
+						pc, neg := an.StripNot(pi.Cond)
+						t := pred.Succs[0] == phi.Block()
+						if neg {
+							t = !t
+						}
+						gs = append(gs, an.Guard{Cond: pc, Truth: t, If: pi})
+					}
+					alts = append(alts, alt{e, gs})
+				}
+			}
+			isIter := false
+			for _, a := range alts {
+				if iterDir(a.src) != "" {
+					isIter = true
+				}
+			}
+			if !isIter {
+				continue
+			}
+			for _, a := range alts {
+				n++
+				dir := iterDir(a.src)
+				var under string
+				for _, g := range a.guards {
+					if g.Cond == ssa.Value(flag) {
+						under = "forward"
+						if g.Truth {
+							under = "reversed"
+						}
+					}
+				}
+				ok2 := (under == "reversed" && dir == "down") || (under == "forward" && dir == "up")
+				r.Check(ok2, "LOOPDIR", sprintf("%s/%s", fkey(fn), under), c.InstrPos(cl), "iteration direction "+dir+" under "+under,
+					"paths are iterated '"+dir+"' under isReversed="+under+": the write order does not match the requested direction")
+			}
+		}
 		r.Floor("LOOPDIR", "path iterations in writeBECgroupsCPUSet", n, 2)
 	}
 }
